@@ -25,11 +25,11 @@ def Avail.guard (av : Avail) : Guard → Bool
 /-- Semantics of the extracted macro body: the candidates are tested in order, each is
 `#[cfg] if guards { return slot(..) }`, and control reaches the fallback call only if none returned.
 (Justified by the extraction flags `condIsGuardConjunction`, `returnsCall`, `dispatchTrailingTokens = 0`.) -/
-def selectedBy (cands : List DispatchCand) (fallback : Slot) (b : Build) (supplied : Slot → Bool)
+def selectedBy (cands : List DispatchCand) (fb : Slot) (b : Build) (supplied : Slot → Bool)
     (av : Avail) : Slot :=
   match cands.find? (fun c => supplied c.label && c.cfg.eval b && c.guards.all av.guard) with
   | some c => c.label
-  | none => fallback
+  | none => fb
 
 /-- The documented contract: a slot can be used when its backend is compiled in and every CPU feature it
 needs is available. -/
